@@ -14,6 +14,9 @@ Tie, checked on every run:
           reproduce every rigid-body force of realize(Dynamics) and the potential energy;
       SS  SmoothSphereHalfSpaceForce (both bodies' forces, pe);   ES  ExponentialSpringForce (all reported parts);
       HZ  CompliantContactSubsystem Hertz circular ContactForce per contact;  BK  brick/half-space penalty (resultant, details);
+      EF  ElasticFoundationForce (checks/C37_ef.py): mesh sphere on half space / analytic sphere / mesh with and without
+          parameters (mesh-on-mesh with both parameter sets = areaScale 1/2); forces and PE; per-face geometry from the implementation;
+          plus the implementation-only finite-difference predicate force = -grad PE on static scenes;
   (S) failing-input search on the implementation alone (always run on the HC cases; more on break): sign of the normal
       component, documented magnitude, tangent plane, friction opposing slip and below the limit.
 Known finding replayed on the real code: SmoothSphereHalfSpaceForce's normal force is attractive for separating speeds
@@ -21,8 +24,9 @@ just above 2/(3c) (theorem C37_ss_normal_never_attractive_refuted / C37_ss_norma
 import os, sys, math
 from vlib import *
 import tvgen
+import C37_ef
 
-PROPS = ['Props/Properties_C37.v']
+PROPS = ['Props/Properties_C37.v', 'Props/Properties_C37_ef.v']
 EXTRACT = '''From Coq Require Import Extraction ExtrOcamlBasic.
 Require Import Num Vec c37_gen C37_Model.
 Extraction "c37model.ml" hc_calcForce hc_force c_wrench ss_calcForce ss_contact_force es_normal es_friction es_force_P hz_force bk_vertex bk_loop stribeck hollars_mu v3_setz0.
@@ -622,6 +626,8 @@ def run(ctx):
         corr_es(ctx, exe, drv, 500 * mult)
         corr_hz(ctx, exe, drv, 400 * mult)
         corr_bk(ctx, exe, drv, 400 * mult)
+    C37_ef.run_ef(ctx, 56 * (1 if quick else 8), 56 * (1 if quick else 8))
+    if exe and drv:
         # known finding (DESIGN 7.20): replay the witness of C37_ss_normal_never_attractive_refuted on the real code
         w = replay_ss_witness(ctx, exe)
         ctx.extra['ss_witness_Fy_on_sphere'] = w
@@ -635,11 +641,13 @@ def run(ctx):
                        'moving body, depth: penetrating/grazing/separated, sphere pairs overlapping; normal velocity: rest/approach/rebound/yank (f<=0); slip 0, <vt, ~vt, >vt); '
                        'SS = one sphere, indentation -.3..+.4 radius, separating speeds clustered around 2/(3c); ES = station height d0-8/d2..d0+10/d2, Sliding 0/1/random, '
                        'anchor offsets 1e-6..1e-1; BK = brick with a face flat or tilted <= .3 rad. evaluations = scenes (HC,SS,ES) + contacts (HZ,BK) + translator-validation tuples; '
+                       'EF = mesh sphere (radius .35-.6, 2-3 subdivisions, depth .02-.15) on half space / analytic sphere / mesh brick / mesh sphere, other body on Ground or moving; '
                        'non-trivial = some non-zero force produced')
     ctx.assumptions += ['theorems are over the reals (ROps) with std::pow = Rpower; binary64 rounding is covered only by the tolerance-based correspondence (1e-9 relative)',
                         'the model takes the contact geometry (depth, normal, location, radius) from the collision detector and the body poses/velocities from the State; their correctness is C35 / C03',
                         'stiffness^(2/3) stored by HuntCrossleyForceImpl::Parameters and ContactMaterial is an input of the model (computed outside the anchored files)',
                         'friction theorems assume 0 <= mu_d <= mu_s, 0 <= mu_v, vt > 0 (ContactMaterial enforces it; HuntCrossleyForce, SmoothSphereHalfSpaceForce do not)',
                         'brick/half-space: the choice of the contacting face and the centre-of-pressure shift are not modelled (the check picks the face by the documented rule)',
-                        'ExponentialSpringForce: the update of the Sliding state (time-dependent) is not modelled']
+                        'ExponentialSpringForce: the update of the Sliding state (time-dependent) is not modelled',
+                        'ElasticFoundationForce: which faces are inside, the spring and nearest points and the face areas are taken from the implementation (mesh/OBB traversal and nearest-point queries are C36/C34); the gradient theorem holds the nearest point fixed']
     ctx.finish()
